@@ -8,7 +8,7 @@ out = []
 notes = json.load(open(f'{V}/propnotes.json'))
 man = json.load(open(f'{V}/MANIFEST.json'))
 out.append('### T1. Properties: what is claimed and how much was discharged on the unchanged tree\n')
-out.append('| id | level | functions under contract | obligations (all discharged) | by back end | solver time | wall (quick) |')
+out.append('| id | level | functions under contract | obligations (discharged / listed as known finding) | by back end | solver time | wall (quick) |')
 out.append('|---|---|---|---|---|---|---|')
 for c in man['checks']:
     pid = c['property_id']
@@ -18,7 +18,7 @@ for c in man['checks']:
         continue
     cov = ev['coverage']
     be = ', '.join(f'{k} {v}' for k, v in sorted(cov.get('by_backend', {}).items()))
-    out.append(f"| {pid} | {ev['level']} | {len(cov.get('functions_under_contract', []))} | {cov['obligations']} | {be} | {cov.get('solver_time_s', 0)} s | {ev['wall_s']} s |")
+    out.append(f"| {pid} | {ev['level']} | {len(cov.get('functions_under_contract', []))} | {cov['obligations']} ({cov['discharged']} / {len(cov.get('known_findings', []))}) | {be} | {cov.get('solver_time_s', 0)} s | {ev['wall_s']} s |")
 out.append('')
 out.append('Not applicable: ' + '; '.join(f"{n['property_id']} ({n['reason'][:160]})" for n in man['not_applicable']) + '\n')
 out.append('### T2. Seeded changes (made by fresh sub-agents that saw only the property text) and the checks that report them\n')
